@@ -659,6 +659,47 @@ def _check_ragged(ctx, prog, exp_ci):
                                  (name, lst, norm_text(packs[0])), text="ragged " + lst)
                 else:
                     ctx.holds(f, loop, "%s: per-element arrays in %s are kept as a list" % (name, lst))
+    # per-element slices cut out of one flat array: the flat array and the slice sizes must be in the same order class
+    from ..orders import Orders
+    for name, fs in exp_ci.methods.items():
+        f = fs[-1]
+        frames = [p_ for p_ in f.params if p_ in ("mesh", "df", "frame")]
+        splits = [c for c in calls_in(f.node) if (call_name(c) or "") in ("np.split", "np.array_split") and len(c.args) >= 2]
+        if not frames or not splits:
+            continue
+        o = Orders(prog, [f.module.name])
+        env = {p_: "ROW" for p_ in frames}
+        for _ in range(3):
+            for st in walk_stmts(f.node.body):
+                if isinstance(st, ast.Assign) and isinstance(st.targets[0], ast.Name):
+                    k = o.oc(st.value, env, f)
+                    if k is not None:
+                        env[st.targets[0].id] = k
+        for c in splits:
+            n += 1
+            sizes = c.args[1]
+            while True:     # cumulative sums and slices of the size vector keep its order class
+                if isinstance(sizes, ast.Subscript):
+                    sizes = sizes.value
+                elif isinstance(sizes, ast.Call) and (call_name(sizes) or "") in ("np.cumsum", "np.asarray", "np.array") and sizes.args:
+                    sizes = sizes.args[0]
+                elif isinstance(sizes, ast.Call) and isinstance(sizes.func, ast.Attribute) and sizes.func.attr in ("cumsum", "to_numpy"):
+                    sizes = sizes.func.value
+                else:
+                    break
+            k0, k1 = o.oc(c.args[0], env, f), o.oc(sizes, env, f)
+            st = c
+            while not isinstance(st, ast.stmt):
+                st = st._parent
+            if k0 is None or k1 is None:
+                raise AnalysisError("%s: order class of the operands of %s unknown (%s / %s)" % (f.key, norm_text(c)[:60], k0, k1))
+            if k0 == k1 and k0 != "ROW":
+                ctx.holds(f, st, "%s: flat array and slice sizes of %s are both in %s order" % (name, norm_text(c)[:60], k0))
+            else:
+                ctx.violated(f, st, "%s: %s cuts an array in %s order into pieces whose sizes are in %s order: the pieces are the "
+                             "elements' node lists only if the rows of the mesh are already grouped by element in that order; "
+                             "for any other row order elements receive the nodes of other elements" %
+                             (name, norm_text(c)[:80], k0, k1), text="split order classes")
     if n == 0:
         raise AnalysisError("exporter: no per-element array list found")
 
@@ -1119,21 +1160,26 @@ def _check_rollback(ctx, prog, W, exp_ci):
                 ctx.violated(fi, t, "entity-creating block has no handler for Exception: a failure leaves %s[%s] behind"
                              % (pt, nt), text="try@%s" % fi.qualname)
                 continue
-            h = hs[0]
-            dels = [d for d in ast.walk(h) if isinstance(d, ast.Delete)]
-            del_ok = False
-            for d in dels:
-                for tg in d.targets:
-                    if isinstance(tg, ast.Subscript) and norm_text(tg.value) == pt and norm_text(tg.slice) == nt:
-                        del_ok = True
-            reraises = bool(h.body) and isinstance(h.body[-1], ast.Raise)
-            if not del_ok:
-                ctx.violated(fi, h, "handler does not delete %s[%s], the entity created in the try block" % (pt, nt),
-                             text="except@%s" % fi.qualname)
-            elif not reraises:
-                ctx.violated(fi, h, "handler swallows the exception after roll-back", text="except@%s" % fi.qualname)
-            else:
-                ctx.holds(fi, t, "creation of %s[%s] rolled back by del + raise" % (pt, nt))
+            all_ok = True
+            for h in t.handlers:        # every handler - a specific one in front of the generic one intercepts its exceptions
+                dels = [d for d in ast.walk(h) if isinstance(d, ast.Delete)]
+                del_ok = False
+                for d in dels:
+                    for tg in d.targets:
+                        if isinstance(tg, ast.Subscript) and norm_text(tg.value) == pt and norm_text(tg.slice) == nt:
+                            del_ok = True
+                reraises = bool(h.body) and isinstance(h.body[-1], ast.Raise)
+                hname = norm_text(h.type) if h.type is not None else "bare"
+                if not del_ok:
+                    all_ok = False
+                    ctx.violated(fi, h, "handler (%s) does not delete %s[%s], the entity created in the try block" % (hname, pt, nt),
+                                 text="except@%s" % fi.qualname if h is hs[0] else "except %s@%s" % (hname, fi.qualname))
+                elif not reraises:
+                    all_ok = False
+                    ctx.violated(fi, h, "handler (%s) swallows the exception after roll-back" % hname,
+                                 text="except@%s" % fi.qualname if h is hs[0] else "except %s@%s" % (hname, fi.qualname))
+            if all_ok:
+                ctx.holds(fi, t, "creation of %s[%s] rolled back by del + raise in %d handler(s)" % (pt, nt, len(t.handlers)))
             # commit last: counter store must not be followed by a creating call inside the try body
             _commit_last(ctx, prog, fi, t.body)
     if blocks < 4:
